@@ -77,7 +77,7 @@ class Scenario:
         """Indices of units the minimiser may delete."""
         return list(range(len(plan["units"])))
 
-    def simplify(self, plan, phase="post"):
+    def simplify(self, plan, phase="post", target=None):
         """Yield simpler variants of a plan (beyond unit deletion).  phase 'pre' runs
         before ddmin (cheap structural candidates), 'post' after it."""
         return ()
@@ -94,6 +94,60 @@ class Scenario:
                 k = k + ":" + str(op[2])
             h.update(f"{ev[1]}:{k};".encode())
         return h.hexdigest()[:16]
+
+
+def op_refs(x, acc=None):
+    """All slots referenced as ['$', n] inside an op."""
+    acc = [] if acc is None else acc
+    if isinstance(x, list):
+        if len(x) == 2 and x[0] == "$" and isinstance(x[1], int):
+            acc.append(x[1])
+        else:
+            for y in x:
+                op_refs(y, acc)
+    elif isinstance(x, dict):
+        for y in x.values():
+            op_refs(y, acc)
+    return acc
+
+
+def op_outs(op):
+    if op[0] == "fault":
+        return op_outs(op[3])
+    if op[0] == "unpack":
+        return list(op[3])
+    if op[0] == "exec_demo":
+        return list(op[3])
+    if len(op) > 1 and isinstance(op[1], int):
+        return [op[1]]
+    return []
+
+
+def slice_candidate(plan, keep_slots, is_program=lambda u: True, offset=0):
+    """Backward slice: drop every program unit that does not contribute to ``keep_slots``
+    (one big cheap candidate before ddmin).  Units for which ``is_program`` is false are
+    kept as they are."""
+    units = plan["units"]
+    need = set(keep_slots)
+    keep = set()
+    for i in range(len(units) - 1, -1, -1):
+        u = units[i]
+        op = u.get("op")
+        if not op or not is_program(u):
+            keep.add(i)
+            continue
+        inner = op[3] if op[0] == "fault" else op
+        outs = op_outs(op)
+        if any(o in need for o in outs):
+            keep.add(i)
+            need.update(op_refs(inner[2:]))
+            if inner[0] in ("roundtrip",) and isinstance(inner[2], int):
+                need.add(inner[2])
+    if len(keep) == len(units):
+        return None
+    q = dict(plan)
+    q["units"] = [u for i, u in enumerate(units) if i in keep]
+    return q
 
 
 def bypass_candidates(plan, unit_filter=lambda u: True):
@@ -156,7 +210,7 @@ def minimise(scn, plan, target, zpool, cap_s=60.0):
     progress = True
     while progress and time.monotonic() - t0 < cap_s / 4:
         progress = False
-        for cand in scn.simplify(cur, phase="pre"):
+        for cand in scn.simplify(cur, phase="pre", target=target):
             if time.monotonic() - t0 >= cap_s / 4:
                 break
             if fails(cand):
@@ -189,7 +243,7 @@ def minimise(scn, plan, target, zpool, cap_s=60.0):
     progress = True
     while progress and time.monotonic() - t0 < cap_s:
         progress = False
-        for cand in scn.simplify(cur, phase="post"):
+        for cand in scn.simplify(cur, phase="post", target=target):
             if time.monotonic() - t0 >= cap_s:
                 break
             if fails(cand):
